@@ -1,5 +1,6 @@
 #![allow(dead_code)]
 //! `check <property> [--tier quick|thorough] [--replay <file>]`
+mod c06;
 mod c10;
 mod c11;
 mod c13;
@@ -19,6 +20,7 @@ type CheckFn = fn(&serde_json::Value) -> Verdict;
 
 fn lookup(id: &str) -> Option<(RunFn, CheckFn)> {
     Some(match id {
+        "C06" => (c06::run, c06::check_record),
         "C10" => (c10::run, c10::check_record),
         "C11" => (c11::run, c11::check_record),
         "C13" => (c13::run, c13::check_record),
